@@ -328,3 +328,57 @@ example : (run (fun _ _ => 0) (prog intFns intPar (.l1 false false)) 0 0 (fun _ 
 
 example : AliasSafe (prog intFns intPar (.huber true)) :=
   C10.alias_safe intFns (by intro b; cases b <;> simp [intFns]) intPar (.huber true)
+
+/-- LOCALITY (statelessness of the executed programs): the value a body leaves in `x` depends
+only on the content of `x` and of the closed-over data `g`, `sigma`, `lower`, `upper` (buffers
+0, 2–5) — not on any other object of the store, not on the junk in uninitialised temporaries:
+for every program variant, scalar type, function instantiation and pair of stores that agree on
+those five buffers. -/
+theorem C10.result_depends_only_on_x_and_data {K : Type} [Add K] [Sub K] [Mul K] [Div K] [Neg K]
+    [OfNat K 0] [OfNat K 1] (F : Fns K) (hF : ∀ b, F.truthy (F.ofBool b) = b) (P : Par K)
+    (id : ProxId) (jk jk' : Nat → Vec K) (m m' : Nat → Vec K)
+    (h0 : m 0 = m' 0) (h2 : m 2 = m' 2) (h3 : m 3 = m' 3) (h4 : m 4 = m' 4) (h5 : m 5 = m' 5) :
+    (run jk (prog F P id) 0 0 m).mem 0 = (run jk' (prog F P id) 0 0 m').mem 0 := by
+  cases id <;> (try rename_i a b) <;> (try cases a) <;> (try cases b) <;> (try rename_i a; cases a)
+  all_goals
+    simp [run, exec, prog, projL1, simplexStmt, l2Step, env0, Env.set, St.write, srcVals, cst, hF,
+      ite_fst', ite_snd', ite_mem', ite_app', h0, h2, h3, h4, h5]
+  all_goals (try funext i)
+  all_goals split_ifs
+  all_goals (try (simp))
+  all_goals simp_all
+
+/-- HISTORY INVARIANT (what the history strata test, for ALL histories): after ANY number `n` of
+aliased calls `P(x, out=x)` on the same store — each with arbitrary junk in its temporaries, for
+every program variant — the closed-over data are untouched and `x` holds the `n`-fold iterate of
+the map `v ↦ P(v)` computed from a FRESH store: no state leaks from one call into the next. -/
+theorem C10.history_invariant {K : Type} [Add K] [Sub K] [Mul K] [Div K] [Neg K]
+    [OfNat K 0] [OfNat K 1] (F : Fns K) (hF : ∀ b, F.truthy (F.ofBool b) = b) (P : Par K)
+    (id : ProxId) (jks : Nat → Nat → Vec K) (jk0 : Nat → Vec K) (m : Nat → Vec K) (n : Nat) :
+    (∀ b : Nat, 2 ≤ b → b < 10 → aliasedCalls jks (prog F P id) n m b = m b) ∧
+    aliasedCalls jks (prog F P id) n m 0 =
+      iter (fun v => (run jk0 (prog F P id) 0 0 (fun b => if b = 0 then v else m b)).mem 0) n (m 0) := by
+  induction n with
+  | zero => exact ⟨fun _ _ _ => rfl, rfl⟩
+  | succ n ih =>
+    obtain ⟨ihd, ihv⟩ := ih
+    constructor
+    · intro b hb2 hb10
+      simp only [aliasedCalls]
+      rw [C10.frame F P id (jks n) _ 0 (by omega) b hb10 (by omega), ihd b hb2 hb10]
+    · simp only [aliasedCalls, iter]
+      rw [← ihv]
+      apply C10.result_depends_only_on_x_and_data F hF P id
+      · simp
+      · simpa using ihd 2 (by omega) (by omega)
+      · simpa using ihd 3 (by omega) (by omega)
+      · simpa using ihd 4 (by omega) (by omega)
+      · simpa using ihd 5 (by omega) (by omega)
+
+/-- Non-vacuity: three aliased `ProximalL1` calls over ℤ (σλ = 2, integer division) from x = 9:
+9 ↦ 7 ↦ 5 ↦ 3, data untouched. -/
+example : aliasedCalls (fun _ _ _ => 0) (prog intFns intPar (.l1 false false)) 3 (fun _ _ => 9) 0 0 = 3 := by
+  have h := (C10.history_invariant intFns (by intro b; cases b <;> simp [intFns]) intPar
+    (.l1 false false) (fun _ _ _ => 0) (fun _ _ => 0) (fun _ _ => 9) 3).2
+  rw [h]
+  simp [iter, run, exec, prog, env0, Env.set, St.write, srcVals, intFns, intPar]
